@@ -482,7 +482,11 @@ int SQLITE3::Handle::query(const std::string& str, bloc::Tuple& args, bloc::Coll
         sqlite3_bind_text(stmt, i, v.literal()->c_str(), v.literal()->size(), SQLITE_STATIC);
         break;
       case Type::TABCHAR:
-        sqlite3_bind_blob(stmt, i, v.tabchar()->data(), v.tabchar()->size(), SQLITE_STATIC);
+        /* an empty bytes array has no data pointer, which would bind NULL */
+        if (v.tabchar()->empty())
+          sqlite3_bind_zeroblob(stmt, i, 0);
+        else
+          sqlite3_bind_blob(stmt, i, v.tabchar()->data(), v.tabchar()->size(), SQLITE_STATIC);
         break;
       default:
         break;
@@ -551,7 +555,11 @@ int SQLITE3::Handle::exec(const std::string& str, bloc::Tuple& args)
         sqlite3_bind_text(stmt, i, v.literal()->c_str(), v.literal()->size(), SQLITE_STATIC);
         break;
       case Type::TABCHAR:
-        sqlite3_bind_blob(stmt, i, v.tabchar()->data(), v.tabchar()->size(), SQLITE_STATIC);
+        /* an empty bytes array has no data pointer, which would bind NULL */
+        if (v.tabchar()->empty())
+          sqlite3_bind_zeroblob(stmt, i, 0);
+        else
+          sqlite3_bind_blob(stmt, i, v.tabchar()->data(), v.tabchar()->size(), SQLITE_STATIC);
         break;
       default:
         break;
